@@ -24,8 +24,8 @@ mutual
       case_bin hc t l r hw (main hc l h.1) (main hc r h.2)
     | .post t l, hw =>
       have h : l.wf = true := by
-        have hw' : (lookup baseInfixFns t.type == some .postfix && l.wf) = true := by simpa [SE.wf] using hw
-        simp only [Bool.and_eq_true] at hw'; exact hw'.2
+        have hw' : (lookup baseInfixFns t.type == some .postfix && l.wf && !t.nl) = true := by simpa [SE.wf] using hw
+        simp only [Bool.and_eq_true] at hw'; exact hw'.1.2
       case_post hc t l hw (main hc l h)
     | .call t f args, hw =>
       have h : f.wf = true ∧ args.wf = true := by
@@ -99,8 +99,8 @@ mutual
     | .letN t name, hw => case_letN hc t name hw
     | .ret t v, hw =>
       have h : v.wf = true := by
-        have hw' : (t.type == .return_ && v.wf) = true := by simpa [SS.wf] using hw
-        simp only [Bool.and_eq_true] at hw'; exact hw'.2
+        have hw' : (t.type == .return_ && v.wf && !(v.toks.headD lpT).nl) = true := by simpa [SS.wf] using hw
+        simp only [Bool.and_eq_true] at hw'; exact hw'.1.2
       case_ret hc t v hw (main hc v h)
     | .retN t, hw => case_retN hc t hw
     | .ifS t c thn, hw =>
